@@ -103,6 +103,14 @@ func replay(in, out string) {
 					}
 				}
 			}
+		case "proto":
+			if st != nil {
+				if b, err := st.Marshal(); err == nil {
+					if sl, err := ParseSlim(b); err == nil {
+						t.Emit(ProtoEv(sl))
+					}
+				}
+			}
 		case "stat":
 			if st != nil {
 				t.Emit(StatEv(st))
